@@ -704,7 +704,12 @@ impl Cb {
 				DefKind::Struct | DefKind::Enum => {
 					let def = tcx.adt_def(did);
 					let mut vs = Vec::new();
-					for v in def.variants().iter() {
+					let discrs: Vec<String> = if def.is_enum() {
+						def.discriminants(tcx).map(|(_, d)| format!("{}", d.val)).collect()
+					} else {
+						Vec::new()
+					};
+					for (vi, v) in def.variants().iter().enumerate() {
 						let fs: Vec<String> = v
 							.fields
 							.iter()
@@ -716,7 +721,12 @@ impl Cb {
 								)
 							})
 							.collect();
-						vs.push(format!("{{\"name\":{},\"fields\":[{}]}}", esc(&v.name.to_string()), fs.join(",")));
+						vs.push(format!(
+							"{{\"name\":{},\"discr\":{},\"fields\":[{}]}}",
+							esc(&v.name.to_string()),
+							esc(discrs.get(vi).map(|s| s.as_str()).unwrap_or("")),
+							fs.join(",")
+						));
 					}
 					let _ = write!(
 						out,
